@@ -187,6 +187,66 @@ theorem max_token_le_two_periods (p q c : Nat) (hc : 2 ≤ c) :
   have : 2 * p * q = p * q + p * q := by ring
   omega
 
+/-! ## the closed loop, idealised (exact arithmetic, the measured previous-second rate equals the allowance) -/
+
+/-- the allowance with `above` tokens over the warning line, exact arithmetic (the expression of `allowedQ_bounds`) -/
+def allowQ (q c W above : ℚ) : ℚ := 1 / (above * ((c - 1) / q / W) + 1 / q)
+
+/-- **Closed loop under saturating demand, idealised — PARTIAL for the property's "reaches q within 2p+2 s"**: `f k` is the
+number of tokens above the warning line at second `k`. While it is positive `sync_token` refills nothing (the previous second's
+admissions are at least the cold rate: `no_refill_when_saturated`) and drains exactly what was admitted, the allowance
+(`drain_by_previous_qps`). Then the warning line — from which on the allowance is the full threshold `q`
+(`allowed_full_below_warning`, `allowedQ_warm`) — is reached after at most `n` seconds as soon as `n · q/c ≥ W`.
+What the idealisation leaves out: f64 rounding, the floors in `warning`/`max_token`, and the measured rate of the previous
+*statistic* second standing in for the allowance; those are covered by the bit-exact validation only. -/
+theorem closed_loop_ideal_reaches_warning_partial (q c W : ℚ) (hq : 0 < q) (hc : 1 < c) (hW : 0 < W)
+    (f : ℕ → ℚ) (h0 : f 0 ≤ W) (hstep : ∀ k, 0 < f k → f (k + 1) = f k - allowQ q c W (f k))
+    (n : ℕ) (hn : W ≤ n * (q / c)) : ∃ k, k ≤ n ∧ f k ≤ 0 := by
+  by_contra hcon
+  have hpos : ∀ k, k ≤ n → 0 < f k := by
+    intro k hk
+    by_contra h
+    exact hcon ⟨k, hk, le_of_not_gt h⟩
+  have hb : ∀ k, k ≤ n → f k ≤ W - k * (q / c) := by
+    intro k
+    induction k with
+    | zero => intro _; simpa using h0
+    | succ k ih =>
+      intro hk
+      have hk' : k ≤ n := Nat.le_of_succ_le hk
+      have ihk := ih hk'
+      have hp := hpos k hk'
+      have hqc : 0 ≤ (k : ℚ) * (q / c) := by positivity
+      have hle : f k ≤ W := by linarith
+      have hall := (allowedQ_bounds q c W (f k) hq hc hW hp.le hle).1
+      rw [hstep k hp]
+      unfold allowQ
+      push_cast
+      linarith
+  have := hb n (le_refl n)
+  have := hpos n (le_refl n)
+  linarith
+
+/-- with the exact bucket geometry `W = 2·p·q/(c+1)` the bound is `2·p` seconds -/
+theorem closed_loop_ideal_within_two_periods_partial (q c : ℚ) (p : ℕ) (hq : 0 < q) (hc : 1 < c) (hp : 0 < p)
+    (f : ℕ → ℚ) (h0 : f 0 ≤ 2 * p * q / (c + 1))
+    (hstep : ∀ k, 0 < f k → f (k + 1) = f k - allowQ q c (2 * p * q / (c + 1)) (f k)) :
+    ∃ k, k ≤ 2 * p ∧ f k ≤ 0 := by
+  have hp' : (0 : ℚ) < p := by exact_mod_cast hp
+  have hc0 : 0 < c := by linarith
+  have hW : 0 < 2 * p * q / (c + 1) := by positivity
+  refine closed_loop_ideal_reaches_warning_partial q c _ hq hc hW f h0 hstep (2 * p) ?_
+  push_cast
+  rw [div_le_iff₀ (by linarith : (0 : ℚ) < c + 1)]
+  have : 2 * (p : ℚ) * (q / c) * (c + 1) = 2 * p * q + 2 * p * q / c := by field_simp
+  rw [this]
+  have : 0 ≤ 2 * (p : ℚ) * q / c := by positivity
+  linarith
+
+/-- non-vacuity: the loop `f (k+1) = f k − allowQ (f k)` started on the full bucket, q = 100, c = 3, p = 1 (W = 50): below the line after 2 s -/
+example : allowQ 100 3 50 50 = 100 / 3 ∧ (50 : ℚ) - 100 / 3 - allowQ 100 3 50 (50 - 100 / 3) ≤ 0 := by
+  unfold allowQ; constructor <;> norm_num
+
 /-! ## non-vacuity -/
 example : (WarmUp.new (F64.ofNat 100) 3 3).warning = 150 ∧ (WarmUp.new (F64.ofNat 100) 3 3).maxToken = 300 := by decide
 example : ((WarmUp.new (F64.ofNat 100) 3 3).sync (F64.ofNat 100) 1700000000000 F64.zero).stored = 300 := by decide
